@@ -54,7 +54,8 @@ def loc_to_steps(rng, doc, loc, fancy=0.25):
             elif r < fancy * 0.7:
                 steps.append(["i", nm - n])
             elif r < fancy * 0.85:
-                steps.append(["s", nm, None, None])
+                # a slice whose first selected element is this one (a start below -len is clamped to the first)
+                steps.append(["s", rng.choice([nm, nm - n, nm - n if nm else -n - rng.randint(1, 3)]), None, None])
             elif r < fancy:
                 steps.append(["gwc"])
             else:
@@ -120,7 +121,12 @@ def target_path(rng, doc, fancy=0.25):
     if rng.random() < 0.08:
         steps = steps + [["k", "missing_parent"]]
         cur = None
-    steps.append(last_step_for(rng, cur, "ok"))
+    elif rng.random() < 0.1:
+        steps = steps + [["rec"]]       # a recursive parent part: its first match is the node it starts from
+    last = last_step_for(rng, cur, "ok")
+    if last[0] == "rec" and steps and steps[-1][0] == "rec":
+        last = ["wc"]        # `rec.rec` is rejected when the expression is built
+    steps.append(last)
     return steps, cur
 
 
@@ -216,13 +222,26 @@ def gen_mutate(rng, profile):
     doc = gen.gen_doc(rng)
     if not isinstance(doc, (dict, list)) and rng.random() < 0.8:
         doc = {"a": doc, "b": [1, {"c": 2}]}
+    script = []
+    if profile in ("set", "pop") and isinstance(doc, dict) and rng.random() < 0.12:
+        # "claim the first free slot": the parent part is filtered on an entry that the history itself assigns through
+        # the same parent expression, so which node the parent part selects changes between consecutive calls
+        doc["slots"] = [{"free": rng.choice([True, True, False, 1]), "owner": None} for _ in range(rng.randint(2, 4))]
+        par = [["k", "slots"], rng.choice([["iwc"], ["gwc"], ["s", None, None, None], ["igwc"]]),
+               ["f", rng.choice([["has", ["c", [["k", "free"]], "eq", True], []], ["has", ["p", [["k", "free"]]], []]])]]
+        for j in range(rng.randint(2, 3)):
+            script.append([rng.choice(["set", "set", "set_match"]), par + [["k", "owner"]], ["new", rng.choice(["u", "usr", "u%d" % j])], False])
+            if profile == "pop" and rng.random() < 0.5:
+                script.append(["pop", par + [["k", "free"]], ["none"]])
+            else:
+                script.append(["set", par + [["k", "free"]], ["new", rng.choice([False, 0, None, ""])], False])
     sc = {"fam": "m", "doc": enc(doc), "ops": []}
     shadow = copy.deepcopy(doc)
     nops = rng.randint(1, 10) if profile != "handles" else rng.randint(3, 12)
+    nops = max(nops, len(script))
     nh = 0
     nested_made = set()
     live = set()
-    script = []
     if profile == "handles" and rng.random() < 0.3:
         # a scripted opening: a match below a filter / rec / nested root (its parent is a bookkeeping match), the
         # container replaced through the parent Match or through the match itself, then writes / a nested search
